@@ -251,6 +251,32 @@ Proof.
       * destruct Heff as [Hl Hc]. rewrite Hl, Hc in *. repeat split; auto; try lia; congruence.
 Qed.
 
+(** from ANY initial state (e.g. one restored by Init with arbitrary chain values): an issuer with no accepted
+    cheque keeps its record and stored cheque; as soon as one of its cheques is accepted, its record IS the
+    stored last cheque (the credit is an assignment of the cumulative payout, not an addition) *)
+Lemma run_credit_any : forall h s rs s',
+  run s h = (rs, s') ->
+  forall a,
+    (accepted_payouts a h rs = [] ->
+       cred (credited s') a = cred (credited s) a /\ last_payout (last_recv s') a = last_payout (last_recv s) a) /\
+    (accepted_payouts a h rs <> [] -> cred (credited s') a = last_payout (last_recv s') a).
+Proof.
+  induction h as [|o t IH]; intros s rs s' Hrun a; cbn [run run_gen] in Hrun.
+  - inversion Hrun; subst. cbn. split; auto. congruence.
+  - fold (step s o) in Hrun. destruct (step s o) as [r s1] eqn:E1.
+    fold (run s1 t) in Hrun. destruct (run s1 t) as [rs2 s2] eqn:E2. inversion Hrun; subst rs s'; clear Hrun.
+    destruct (IH _ _ _ E2 a) as (IHn & IHs).
+    destruct (step_effect _ _ _ _ a E1) as (_ & Heff).
+    destruct o as [p a0|p sc]; cbn [accepted_payouts].
+    + destruct Heff as [Hl Hc]. rewrite <- Hl, <- Hc. split; auto.
+    + destruct (is_ok r && (beneficiary (chq sc) =? a)) eqn:Eg.
+      * destruct Heff as (_ & Hl & Hc & _). split; [discriminate|]. intros _.
+        destruct (accepted_payouts a t rs2) as [|x l] eqn:Et.
+        -- destruct (IHn eq_refl) as [A B]. congruence.
+        -- apply IHs. discriminate.
+      * destruct Heff as [Hl Hc]. rewrite <- Hl, <- Hc. split; auto.
+Qed.
+
 Lemma fold_max_zero l : (forall x, In x l -> 0 <= x)%Z -> fold_right Z.max 0%Z l = zmax_list l.
 Proof. reflexivity. Qed.
 
@@ -289,6 +315,20 @@ Proof.
         apply andb_true_iff in Eg as [_ Eb]. apply N.eqb_eq in Eb. subst a.
         rewrite Hl in IH. cbn [strictly_increasing_from]. auto.
       * destruct Heff as [Hl _]. now rewrite Hl in IH.
+Qed.
+
+Lemma run_restored s h rs s' :
+  run s h = (rs, s') ->
+  forall a,
+    last_payout (last_recv s') a
+      = Z.max (last_payout (last_recv s) a) (fold_right Z.max (last_payout (last_recv s) a) (accepted_payouts a h rs)) /\
+    (accepted_payouts a h rs <> [] -> credited_of s' a = last_payout (last_recv s') a) /\
+    (accepted_payouts a h rs = [] -> credited_of s' a = credited_of s a) /\
+    strictly_increasing_from (last_payout (last_recv s) a) (accepted_payouts a h rs).
+Proof.
+  intros Hrun a. destruct (run_credit _ _ _ _ Hrun a) as (H1 & _). destruct (run_credit_any _ _ _ _ Hrun a) as (H2 & H3).
+  rewrite !credited_of_cred. split; [exact H1|]. split; [exact H3|]. split; [intros E; apply (H2 E)|].
+  eapply run_increasing; eauto.
 Qed.
 
 (** right peer: an accepted cheque arrives from the peer registered for its issuer and
